@@ -269,12 +269,14 @@ func (m *fStompSubscriberTransport) Unsubscribe() error {
 		return nil
 	}
 
+	// The message loop is told to stop first; from then on the transport is no
+	// longer subscribed, whatever the broker answers.
 	close(m.stopC)
+	m.isSubscribed = false
 	if err := m.sub.Unsubscribe(); err != nil {
 		return thrift.NewTTransportExceptionFromError(err)
 	}
 
-	m.isSubscribed = false
 	m.callback = nil
 	return nil
 }
